@@ -279,6 +279,9 @@ class Tr:
             if v in self.env:
                 self.p += 1
                 return (lname(v), self.env[v])
+            if v in ("true", "false"):
+                self.p += 1
+                return (v, "Bool")
             raise Unsupported("unknown identifier %r" % v)
         raise Unsupported("unexpected token %r" % ((k, v),))
 
